@@ -61,8 +61,8 @@ Definition step (s : st) (c : char) : st :=
 
 Definition run (t : str) (s : st) : st := fold_left step t s.
 
-(* end of input: an atom, a closed string literal or a comment in progress is
-   emitted; an unterminated literal ends the scan without emitting; lists that
+(* end of input: an atom, a closed string literal or a comment in progress (which
+   then gets its line break) is emitted; an unterminated literal ends the scan without emitting; lists that
    are still open are dropped. *)
 Definition finish (s : st) : list sexp :=
   match md s with
@@ -70,7 +70,7 @@ Definition finish (s : st) : list sexp :=
   | MTok acc => rev (out (emit (L (rev acc)) s))
   | MLit _ _ => rev (out s)
   | MLitQ acc => rev (out (emit (L (rev acc)) s))
-  | MCom acc => rev (out (emit (L (rev acc)) s))
+  | MCom acc => rev (out (emit (L (rev (cLF :: acc))) s))
   end.
 
 Definition parse (t : str) : list sexp := finish (run t init).
